@@ -54,21 +54,21 @@ CHECKS += [
      "text": "Seeded batches of stochastic model programs with pub/sub fan-out (listeners with identity hash that draw from shared streams and schedule events) are run in separate interpreter processes, each with a different perturbation of everything a run must not depend on; the digest of executed events, deliveries, draws, all statistics getters and the final state must be identical in all of them, and the simulator notification stream identical among equal pause patterns.",
      "note": "the violation itself is nondeterminism, so a replay file re-runs the same children and may need more than one attempt; float clock"},
     {"property_id": "C09", "level": "exploration", "design_ref": "DESIGN.md §4.9",
-     "technique": "deterministic simulation (history + exact-rational reference model, scheduler idle; weak fit, said plainly): seeded observation histories with rejected inputs and resets",
+     "technique": "deterministic simulation: seeded observation histories with rejected inputs and resets against an exact-rational reference model (single caller: scheduler idle, weak fit, said plainly), plus a two-caller-thread layer under the baton scheduler (one thread registers, one queries, seeded pre-emption at the lines of statistics.py; state after both finished == definition)",
      "text": "Seeded search over observation histories (seven data regimes up to condition number 1e6, n up to 60 quick / 2000 thorough) interleaved with rejected inputs, initialize calls and queries, on plain, event-publishing and subscribed tallies and counters; every getter is compared with exact rational arithmetic within a conditioning-aware bound, NaN exactly where undefined, never raising; rejected input must leave every getter bit-identical; published values equal getters.",
-     "note": "no scheduler/clock/second party in this property; accuracy of skewness/kurtosis only judged while the bound stays below 1e-3"},
+     "note": "no clock in this property; a second caller thread only as a reader; accuracy of skewness/kurtosis only judged while the bound stays below 1e-3"},
     {"property_id": "C10", "level": "exploration", "design_ref": "DESIGN.md §4.9",
-     "technique": "deterministic simulation (history + exact-rational reference / exact step-function integral, scheduler idle; weak fit): seeded weighted and timestamped observation histories with timestamp anomalies",
+     "technique": "deterministic simulation: seeded weighted and timestamped observation histories with timestamp anomalies against an exact-rational reference / exact step-function integral (single caller: scheduler idle, weak fit), plus a two-caller-thread layer under the baton scheduler (writer registers and closes, reader queries, seeded pre-emption at the lines of statistics.py)",
      "text": "Seeded search over weighted and timestamped histories (zero / all-zero weights, repeated timestamps, regressing and NaN timestamps, closing, observations after close, re-initialisation); weighted sum, mean, variances and standard deviations are compared with exact rational values resp. the exact integral of the piecewise-constant signal; rejected calls change nothing; nothing reported changes after closing.",
      "note": "weighted_mean with zero total weight must merely not raise; n/min/max of the timestamp variant not judged"},
     {"property_id": "C12", "level": "exploration", "design_ref": "DESIGN.md §4.11",
-     "technique": "deterministic simulation (history + metamorphic relations, scheduler idle; weak fit): seeded draw/reseed/reset/save/restore histories over interleaved streams; extreme uniforms injected at the wrapped-Random seam",
+     "technique": "deterministic simulation (history + metamorphic relations, scheduler idle; weak fit): seeded draw/reseed/reset/save/restore/clone histories over interleaved streams; unseeded streams under a virtual wall clock at the module's time seam; extreme uniforms injected at the wrapped-Random seam",
      "text": "Every draw of a stream that is reseeded, reset and restored is compared bit for bit with a shadow stream that is only ever constructed and drawn from; solo twins check independence from interleaving; ranges are checked for every draw including huge and single-value ranges and for scripted extreme uniforms.",
      "note": "relations, not a re-implementation: a different but valid generator passes"},
     {"property_id": "C13", "level": "exploration", "design_ref": "DESIGN.md §4.12",
-     "technique": "deterministic simulation of process-level nondeterminism: seed-update cases evaluated in 6 child interpreters with different PYTHONHASHSEED and both dict listing orders; equality; in-process fallback and refusal atomicity",
+     "technique": "deterministic simulation of process-level nondeterminism: seed-update cases evaluated in 6 child interpreters with different PYTHONHASHSEED and both dict listing orders; equality; in-process fallback and refusal atomicity; two threads updating same-named streams at once under the baton scheduler (pre-emption at the lines of streams.py) must get the single-threaded seeds",
      "text": "Batches of (stream names, original seeds, seed tables, replication number, updater) are evaluated in six interpreter processes started with different hash seeds and with the stream dict listed forwards and backwards; seeds and first draws must agree everywhere; unlisted streams use the fallback; refused updates leave the stream untouched.",
-     "note": "hash randomisation is the only process-level variation the property names"},
+     "note": "hash randomisation is the only process-level variation the property names; threads of one process are covered as 'every run'"},
     {"property_id": "C14", "level": "fault_enumeration", "design_ref": "DESIGN.md §4.13",
      "technique": "deterministic simulation with fault injection at the StreamInterface seam: enumerated matrix of extreme-but-legal uniforms x draw positions x parameter regimes for all 19 distributions, plus seeded random parameters and fault plans; support/totality/twin/isolation/re-pointing oracles",
      "text": "A scripted stream returns 0.0, 5e-324, 2**-53, 0.5 or 1-2**-53 at chosen uniform positions (all single placements and all pairs among the first four) for every class and parameter regime; each cell checks that drawing never raises, stays in the support, equals an equally scripted twin, is unaffected by a second instance, never consumes the old stream after re-pointing and drops cached state; constructors reject parameters outside and accept parameters inside the documented domain (open finding D20 for p in {0,1} of Geometric/NegBinomial).",
